@@ -1,6 +1,6 @@
 SPECIFICATION CSpec
 CONSTANTS
-  NBlocks = 3
+  Bud <- BudThree
   Quanta = 4
   MaxPc = 3
   CFault = "none"
@@ -8,4 +8,7 @@ INVARIANT CLedgerAccepts
 INVARIANT BlockWithin
 INVARIANT TotalWithin
 INVARIANT TotalIsWeightedBlocks
+INVARIANT ZeroBlockStaysZero
+INVARIANT ExhaustedIsAll
+INVARIANT SlicesSound
 CHECK_DEADLOCK FALSE
